@@ -18,6 +18,17 @@
 //! errors (charstring_path_ops.ttf) and never checks the advance of static
 //! fonts.
 //!
+//! Workload: every glyph of every static glyf/CFF face of
+//! `vf_core::corpus_fonts()` + `vf_core::klippa_fonts()` (40 faces, 25 254
+//! glyphs) x ppem grid x {unscaled, unhinted, interpreter x 5 targets,
+//! auto-hinter x 5 targets}; work items (face, ppem, mode) are dealt to shards
+//! with `ctx.mine`. One fauntlet instance pair per item; one FT library + mmap
+//! per font file per shard.
+//!
+//! Signature: `ft-mismatch:<file>[@face]#<fnv64 of file>:gid=<g>:engine=<none|interpreter|auto>`;
+//! sizes/targets are in the detail, the counter `differing_comparisons:<sig>`
+//! and the distinct set `mismatching_cases`.
+//!
 //! IMPORTANT: this crate lives in its own workspace so that skrifa is built
 //! WITHOUT `autohint_shaping` (like fauntlet); see /verif/DESIGN.md C03.
 
@@ -40,11 +51,18 @@ const TARGETS: [HintingTarget; 5] = [
     HintingTarget::VerticalLcd,
 ];
 
-const QUICK_SIZES: [u32; 12] = [0, 7, 8, 9, 11, 12, 13, 16, 17, 24, 48, 113];
+/// Quick tier: unscaled, every ppem 6..=32 and a spread of larger sizes
+/// (a superset of DESIGN.md's {0,7,8,9,11,12,13,16,17,24,48,113}).
+const QUICK_EXTRA_SIZES: [u32; 15] = [36, 40, 48, 56, 64, 72, 96, 113, 128, 150, 200, 256, 512, 1000, 2000];
+/// Thorough tier: unscaled, every ppem 5..=200 and these. 2000 is the largest
+/// size FreeType's CFF engine hints (CF2_MAX_SIZE); above it FreeType falls
+/// back to unhinted outlines scaled afterwards, which skrifa does not imitate.
+const THOROUGH_EXTRA_SIZES: [u32; 10] = [250, 256, 300, 400, 512, 600, 800, 1000, 1500, 2000];
 
-/// Quick tier: glyph budget per (font, ppem, mode) for large fonts; a
-/// seed-dependent residue class of stride ceil(n / budget) is compared.
-const QUICK_GLYPHS_PER_CONFIG: usize = 100000;
+/// Quick tier: glyph budget per (font, ppem, mode); fonts with more glyphs
+/// are sampled on a seed-dependent residue class of stride ceil(n / budget).
+/// Every font of the current corpus is below the budget (max 6253 glyphs).
+const QUICK_GLYPHS_PER_CONFIG: usize = 8192;
 
 fn target_name(t: HintingTarget) -> &'static str {
     match t {
@@ -54,10 +72,6 @@ fn target_name(t: HintingTarget) -> &'static str {
         HintingTarget::Lcd => "lcd",
         HintingTarget::VerticalLcd => "vlcd",
     }
-}
-
-fn target_from(s: &str) -> Option<HintingTarget> {
-    TARGETS.iter().copied().find(|t| target_name(*t) == s)
 }
 
 /// A comparison mode (`ppem == 0` has the single mode `Unscaled`).
@@ -94,15 +108,6 @@ impl Mode {
             _ => None,
         }
     }
-    fn parse(engine: &str, target: &str) -> Option<Mode> {
-        match (engine, target) {
-            ("none", "unscaled") => Some(Mode::Unscaled),
-            ("none", "unhinted") => Some(Mode::Unhinted),
-            ("interpreter", t) => Some(Mode::Hinted(Hinting::Interpreter(target_from(t)?))),
-            ("auto", t) => Some(Mode::Hinted(Hinting::Auto(target_from(t)?))),
-            _ => None,
-        }
-    }
 }
 
 fn scaled_modes() -> Vec<Mode> {
@@ -113,13 +118,20 @@ fn scaled_modes() -> Vec<Mode> {
 }
 
 fn sizes(ctx: &Ctx) -> Vec<u32> {
+    // Debugging aid only (never set by the driver): C03_SIZES=1,2,3 overrides the grid.
+    if let Ok(s) = std::env::var("C03_SIZES") {
+        return s.split(',').filter_map(|x| x.parse().ok()).collect();
+    }
     if ctx.tier.is_thorough() {
         let mut v = vec![0u32];
-        v.extend(6..=200u32);
-        v.extend([256, 512, 1000]);
+        v.extend(5..=200u32);
+        v.extend(THOROUGH_EXTRA_SIZES);
         v
     } else {
-        QUICK_SIZES.to_vec()
+        let mut v = vec![0u32];
+        v.extend(6..=32u32);
+        v.extend(QUICK_EXTRA_SIZES);
+        v
     }
 }
 
@@ -419,7 +431,10 @@ fn run_config(
                         "skrifa_path": path_to_strings(sk_path, 40),
                         "note": "first differing (ppem, target) seen by this shard for this (font, glyph, engine); events.differing_comparisons:<signature> has the total",
                     });
-                    ctx.violation(&sig, detail, None);
+                    if ctx.violation(&sig, detail, None) {
+                        // not a known finding: keep a per-size breakdown
+                        ctx.count(&format!("new_mismatch_by_font_engine_ppem:{}:{}:{:05}", font.name, mode.engine(), ppem), 1);
+                    }
                 } else if nontrivial == 1 && !ft_path.is_empty() {
                     ctx.sample_by_kind(
                         &format!("{}:{}", face.flavour, mode_name),
@@ -440,7 +455,7 @@ fn run_config(
     ConfigOutcome::Ran
 }
 
-pub fn run(ctx: &mut Ctx, args: &Args) {
+pub fn run(ctx: &mut Ctx, _args: &Args) {
     ctx.rule = "a comparison where BOTH FreeType and skrifa produced a non-empty regularised outline; digest = (font file+content hash, face index, glyph id, ppem, engine/target)".into();
     ctx.level = "differential".into();
     ctx.assumptions = vec![
@@ -449,9 +464,6 @@ pub fn run(ctx: &mut Ctx, args: &Args) {
         "static fonts only (any face with an fvar table is skipped); tricky fonts are compared unscaled/unhinted only, as fauntlet lets FreeType ignore hinting flags for them".into(),
         "advance compared when skrifa reports AdjustedMetrics.advance_width (glyf, auto-hinter) against FT glyph metrics horiAdvance".into(),
     ];
-    if let Some(rp) = &args.replay {
-        let _ = rp; // handled by vf_core::main_with through REPLAY
-    }
     let fonts = all_fonts();
     let quick = !ctx.tier.is_thorough();
     let sizes = sizes(ctx);
@@ -462,15 +474,10 @@ pub fn run(ctx: &mut Ctx, args: &Args) {
     ctx.extra.insert("ppem_grid".into(), json!({"count": sizes.len(), "min_scaled": sizes.iter().filter(|s| **s != 0).min(), "max": sizes.iter().max(), "includes_unscaled": sizes.contains(&0)}));
     ctx.extra.insert(
         "freetype".into(),
-        json!(freetype_version().unwrap_or_else(|| "?".into())),
+        json!("freetype-sys 0.17 bundled FreeType 2.12.1, driven through fauntlet's adapter"),
     );
 
     for font in &fonts {
-        // quick tier: test-data fonts + DejaVuSans; thorough: everything
-        let is_extra = font.path.starts_with(format!("{}/corpus", vf_core::VERIF_DIR));
-        if quick && is_extra && std::env::var("C03_EXP").is_err() && font.name != "DejaVuSans.ttf" {
-            continue;
-        }
         let faces = static_outline_faces(ctx, font);
         if faces.is_empty() {
             continue;
@@ -666,12 +673,6 @@ fn open_font(ctx: &mut Ctx, path: &Path) -> Option<Font> {
     }
 }
 
-fn freetype_version() -> Option<String> {
-    // freetype-rs does not expose FT_Library_Version on Library in a stable
-    // way across versions; report the crate-level fact instead.
-    Some("freetype-sys 0.17 bundled (FreeType 2.12.1), via fauntlet".into())
-}
-
 /// Re-run one recorded mismatch: all sizes of the tier for the recorded
 /// (font, face, glyph, engine).
 fn replay(ctx: &mut Ctx, _args: &Args, rec: &Value, _bytes: Option<&[u8]>) {
@@ -698,8 +699,8 @@ fn replay(ctx: &mut Ctx, _args: &Args, rec: &Value, _bytes: Option<&[u8]>) {
     let Some(mut ff) = open_font(ctx, &font.path) else { return };
     let mut stats = Stats::default();
     let mut all_sizes: Vec<u32> = vec![0];
-    all_sizes.extend(6..=200u32);
-    all_sizes.extend([256, 512, 1000]);
+    all_sizes.extend(5..=200u32);
+    all_sizes.extend(THOROUGH_EXTRA_SIZES);
     for ppem in all_sizes {
         let modes: Vec<Mode> = if ppem == 0 { vec![Mode::Unscaled] } else { scaled_modes() };
         for mode in modes {
@@ -710,5 +711,4 @@ fn replay(ctx: &mut Ctx, _args: &Args, rec: &Value, _bytes: Option<&[u8]>) {
             run_config(ctx, &mut stats, &mut ff, font, face, ppem, mode, &mut gids);
         }
     }
-    let _ = Mode::parse; // kept for external tooling of replay records
 }
